@@ -75,15 +75,27 @@ def resultS : M Result → String
       | .reply rp => replyS rp
     s!"{head} hooks={r.hookCalls} db={r.stored}"
 
+/-- Dispatch tables to run with: the tree as it stands unless the line carries `tables=…`
+    (never sent by the harness; used by hand to validate a proposed repair of /repo against the
+    repaired tables before the model is changed: `sed 's/$/ tables=fix4/'` on the input lines). -/
+def tables (kv : List (String × String)) : Option Facts :=
+  match lookup kv "tables" with
+  | none => some asCoded
+  | some "fix4" => some { asCoded with checked := [tRenewalReq, tUpdateReq, tPKCSReq] }
+  | some "fix5" => some (withCertRepRefused asCoded)
+  | some "fix45" => some (withCertRepRefused { asCoded with checked := [tRenewalReq, tUpdateReq, tPKCSReq] })
+  | some _ => none
+
 def eval (line : String) : Option String := do
   let fs := fields line
+  let kvOf := fun (rest : List String) => rest.filterMap fun f =>
+    match f.splitOn "=" with
+    | [k, v] => some (k, v)
+    | _ => none
   match fs with
-  | "facts" :: _ => pure (factsS asCoded)
+  | "facts" :: rest => pure (factsS (← tables (kvOf rest)))
   | "pki" :: rest =>
-    let kv := rest.filterMap fun f =>
-      match f.splitOn "=" with
-      | [k, v] => some (k, v)
-      | _ => none
+    let kv := kvOf rest
     let q : Req := {
       httpOk := ← bool? (← lookup kv "http")
       p7Ok := ← bool? (← lookup kv "p7")
@@ -101,7 +113,7 @@ def eval (line : String) : Option String := do
       signOk := ← bool? (← lookup kv "signok")
       encOk := ← bool? (← lookup kv "encok") }
     let c : Config := { secret := ← str? (← lookup kv "secret"), hooks := ← hooks? (← lookup kv "hooks") }
-    pure (resultS (pkiOperation asCoded c q))
+    pure (resultS (pkiOperation (← tables kv) c q))
   | _ => none
 
 end C15
